@@ -421,10 +421,7 @@ func visitInstr(fr *frame, instr ssa.Instruction) continuation {
 		m := fr.get(instr.Map).(*omap)
 		key := fr.get(instr.Key)
 		v := fr.get(instr.Value)
-		if containsSym(key) {
-			key = fr.concretizeKey(m, key, instr.Key.Type(), true)
-		}
-		m.insert(key, copyVal(v))
+		fr.mapInsert(m, key, copyVal(v), instr.Key.Type())
 
 	case *ssa.TypeAssert:
 		fr.env[instr] = typeAssert(fr.i, instr, fr.get(instr.X).(iface))
@@ -523,33 +520,85 @@ func (fr *frame) concretizeAny(s symInt, what string) value {
 	panic(unsupported("symbolic value with more than 64 feasible values where a concrete one is needed: " + what))
 }
 
-// concretizeKey resolves a symbolic map key against the existing keys of m.
-// It returns an existing (concrete) key equal to key on this path, or, if the key is
-// different from all of them: for lookups a fresh unmatched marker (nil), for insert unsupported.
-func (fr *frame) concretizeKey(m *omap, key value, kt types.Type, forInsert bool) value {
-	if m != nil {
-		for _, e := range m.ents {
-			if !e.live {
-				continue
+// findEntry returns the index in m.ents of the live entry whose key equals key on this path
+// (forking on symbolic equalities), or -1 if the key differs from every entry.
+func (fr *frame) findEntry(m *omap, key value, kt types.Type) int {
+	if m == nil {
+		return -1
+	}
+	if kt == nil {
+		kt = anyType
+	}
+	keySym := containsSym(key)
+	if !keySym {
+		if i, ok := m.idx[normKey(key)]; ok {
+			return i
+		}
+		if m.nsym == 0 {
+			return -1
+		}
+	}
+	for i := range m.ents {
+		e := &m.ents[i]
+		if !e.live {
+			continue
+		}
+		if !keySym && !e.sym {
+			continue // concrete vs concrete: decided by the index above
+		}
+		eq := fr.i.equals(kt, key, e.key)
+		switch eq := eq.(type) {
+		case bool:
+			if eq {
+				return i
 			}
-			eq := fr.i.equals(kt, key, e.key)
-			switch eq := eq.(type) {
-			case bool:
-				if eq {
-					return e.key
-				}
-			case symBool:
-				if fr.branch(eq.t, "map-key") {
-					return e.key
-				}
+		case symBool:
+			if fr.branch(eq.t, "map-key") {
+				return i
 			}
 		}
 	}
-	if forInsert {
-		// key differs from all existing keys: pick a model value
-		return fr.pickConcrete(key, kt)
+	return -1
+}
+
+func (fr *frame) mapLookup(m *omap, key value, kt types.Type) (value, bool) {
+	if i := fr.findEntry(m, key, kt); i >= 0 {
+		return m.ents[i].val, true
 	}
-	return nil
+	return nil, false
+}
+
+func (fr *frame) mapInsert(m *omap, key, val value, kt types.Type) {
+	if m == nil {
+		panic(targetPanic{"assignment to entry in nil map"})
+	}
+	if i := fr.findEntry(m, key, kt); i >= 0 {
+		m.ents[i].val = val
+		return
+	}
+	if containsSym(key) {
+		m.ents = append(m.ents, oent{key: key, val: val, live: true, sym: true})
+		m.nsym++
+		m.n++
+		return
+	}
+	m.insert(key, val)
+}
+
+func (fr *frame) mapDelete(m *omap, key value, kt types.Type) {
+	i := fr.findEntry(m, key, kt)
+	if i < 0 {
+		return
+	}
+	e := &m.ents[i]
+	if e.sym {
+		e.live = false
+		e.val = nil
+		m.nsym--
+		m.n--
+		return
+	}
+	m.delete(e.key)
 }
 
 // pickConcrete chooses, for a symbolic value, one concrete model value and constrains the path to it
@@ -588,14 +637,7 @@ func (fr *frame) lookup(instr *ssa.Lookup, x, idx value) value {
 	case *omap:
 		var v value
 		var ok bool
-		if containsSym(idx) {
-			k := fr.concretizeKey(x, idx, instr.X.Type().Underlying().(*types.Map).Key(), false)
-			if k != nil {
-				v, ok = x.lookup(k)
-			}
-		} else {
-			v, ok = x.lookup(idx)
-		}
+		v, ok = fr.mapLookup(x, idx, instr.X.Type().Underlying().(*types.Map).Key())
 		if !ok {
 			v = zero(instr.X.Type().Underlying().(*types.Map).Elem())
 		} else {
@@ -894,14 +936,7 @@ func callBuiltin(caller *frame, callpos token.Pos, fn *ssa.Builtin, args []value
 
 	case "delete": // delete(map[K]value, K)
 		m := args[0].(*omap)
-		key := args[1]
-		if containsSym(key) {
-			key = caller.concretizeKey(m, key, m.keyTypeOr(fn), false)
-			if key == nil {
-				return nil
-			}
-		}
-		m.delete(key)
+		caller.mapDelete(m, args[1], m.keyTypeOr(fn))
 		return nil
 
 	case "clear":
